@@ -78,8 +78,22 @@ def build_harness(ctx):
 # proof stage
 
 def strip_comments(src):
-    src = re.sub(r'/-.*?-/', '', src, flags=re.S)
-    return re.sub(r'--.*', '', src)
+    """remove Lean block comments (they nest) and line comments"""
+    out, depth, i = [], 0, 0
+    while i < len(src):
+        if src.startswith('/-', i):
+            depth += 1
+            i += 2
+        elif src.startswith('-/', i) and depth > 0:
+            depth -= 1
+            i += 2
+        else:
+            if depth == 0:
+                out.append(src[i])
+            elif src[i] == '\n':
+                out.append('\n')
+            i += 1
+    return re.sub(r'--.*', '', ''.join(out))
 
 
 def theorem_names(path):
